@@ -13,9 +13,12 @@ CLAIMED = {
    text="Theorems (Props/C19.v): the hash-tiebreak ordering is a strict total order on the whole int64 time range, "
         "default ordering equals it on distinct (id,time) pairs, clock comparison antisymmetric/transitive, smaller time "
         "first, FWW = -LWW, sorting is a permutation and (for the strict order) sorted and input-order independent; "
-        "proved for any id/hash comparison that is a three-way total order and instantiated for ranks and for raw bytes. "
+        "proved for any id/hash comparison that is a three-way total order and instantiated for ranks and for raw bytes, "
+        "and (C19_any_clock_*) for EVERY pluggable clock type whose Compare ranks by time and on equal times answers 0 or "
+        "like the ids (built-in clock and a time-only clock are proved instances). "
         "Tied to the code by differential execution of sorting.*/LamportClock.Compare vs the model on all pairs of a pool "
-        "and on random sort inputs, plus direct law monitors on the implementation.",
+        "and on random sort inputs (built-in clock, and an application-defined entry/clock type comparing times only), plus "
+        "direct law monitors on the implementation.",
    technique="Coq proof (order laws, insertion-sort model) + differential correspondence vs Go", design="6/C19"),
  "C20": dict(
    text="Theorems (Props/C20.v): for every history of create/get/has/get-or-create/restart over any number of keystore "
